@@ -42,7 +42,7 @@ pub fn injected_panic() -> ! {
     std::panic::resume_unwind(Box::new(Injected))
 }
 
-pub trait Elem: Sized + Clone + Default + std::fmt::Debug + 'static {
+pub trait Elem: Sized + Clone + Default + std::fmt::Debug + serde::Serialize + serde::de::DeserializeOwned + 'static {
     const ETY: &'static str;
     fn fresh() -> Self;
     fn id(&self) -> i64;
@@ -171,3 +171,22 @@ impl std::fmt::Debug for TkZ {
         write!(f, "TkZ")
     }
 }
+
+macro_rules! serde_elem {
+    ($t:ty) => {
+        impl serde::Serialize for $t {
+            fn serialize<S: serde::Serializer>(&self, s: S) -> Result<S::Ok, S::Error> {
+                s.serialize_u32(Elem::id(self) as u32)
+            }
+        }
+        impl<'de> serde::Deserialize<'de> for $t {
+            fn deserialize<D: serde::Deserializer<'de>>(d: D) -> Result<$t, D::Error> {
+                let _wire = <u32 as serde::Deserialize>::deserialize(d)?;
+                Ok(crate::serde_drv::mkde::<$t>())
+            }
+        }
+    };
+}
+serde_elem!(Tk);
+serde_elem!(Pl);
+serde_elem!(TkZ);
